@@ -569,9 +569,10 @@ func TestVerifC02(t *testing.T) {
 			}
 			close(ch)
 			cw.Wait()
-			for _, ep := range eps {
-				ep.Close()
-			}
+			// The epochs are deliberately NOT closed: the epoch search leaves its slower jobs running after the
+			// first hit ("the other goroutines will still run until they finish"), and closing the mmap'ed
+			// index files under them is the use-after-close of C09's close-under-query finding, not C02's subject.
+			_ = eps
 			cache = nil
 			rec.Count("multiepoch_configurations", 1)
 		}
@@ -622,7 +623,6 @@ func TestVerifC02(t *testing.T) {
 			}
 		}
 		rec.Distinct("corner/epoch0-slot1-skipped")
-		ep.Close()
 	}
 	_ = strings.Join
 	_ = solana.Signature{}
